@@ -214,6 +214,8 @@ def check_session(run, scn, actor=0, model=None, relaxed_from=None):
             if op['op'] == 'connect':
                 m.connected = bool(rec['ok'] and rec['value'])
             continue
+        if op.get('late_exit') and not rec['ok'] and rec['exc'] == 'AdbTimeoutError':
+            continue        # the command ended after its timeout_s: giving the (complete) result and reporting the timeout are both within the statement
         if exp[0] == 'mustraise':
             if rec['ok'] and rec['value']:
                 probs.append(P('wrong-result', '%s returned %s although its stream belongs to a connection that was closed before' % (where, brief(rec['value']))))
